@@ -137,8 +137,18 @@ def got_eml(e, level=0):
             "kids": [got_eml(c, level + 1) for c in e if isinstance(c.tag, str)]}
 
 
+def xn_json(e):
+    """the lxml infoset in the shape of Model/Import.lean's XN (what `_process_element` reads)"""
+    if not isinstance(e.tag, str):
+        return ["c", e.tail]
+    q = etree.QName(e)
+    return ["e", q.localname, e.prefix, [[k, v] for k, v in e.nsmap.items() if k is not None], [[k, v] for k, v in e.attrib.items()],
+            e.text, e.tail, [xn_json(c) for c in e]]
+
+
 def run(ctx):
     rng = ctx.rng
+    nsreqs, nsmetas = [], []
     N = 300 if ctx.tier == "quick" else 5000
     fails, diffs, samples, reqs, metas = [], [], [], [], []
     drift = 0
@@ -197,8 +207,19 @@ def run(ctx):
         if impl.snapshot(root) != orig:
             fails.append({"case": case, "what": "the exporter modified the tree"})
         reqs.append({"op": "toxml", "tree": orig}); metas.append((case, out, eml))
+        if not eml and what is None:
+            # the infoset lxml hands over for the real output, against the model chain: exporter model -> denoted value -> namespace processing
+            nsreqs.append({"op": "nsresolve", "tree": orig}); nsmetas.append((case, xn_json(le)))
         if len(samples) < 2 and len(out) < 500 and orig[8]:
             samples.append({"tree": orig, "xml": out})
+    if ctx.driver and nsreqs:
+        for (case, got), m in zip(nsmetas, ctx.driver.batch(nsreqs)):
+            # the document element's tail is what follows it in the file: lxml reports none
+            if isinstance(m, list) and len(m) == 8:
+                m = m[:6] + [None] + m[7:]
+            if m != got:
+                diffs.append({"case": case, "impl": "lxml infoset of the exporter's output: " + json.dumps(got)[:300],
+                              "model": "resolveX (xElemG tree): " + json.dumps(m)[:300]})
     if ctx.driver:
         outs = ctx.driver.batch(reqs)
         for (case, out, eml), m in zip(metas, outs):
